@@ -99,6 +99,47 @@ def family_corpus():
     return out
 
 
+RAW_FAMILY = [
+    # constant operands whose folded value is an instance of a SUBCLASS of a builtin type (groupby's _GroupTuple, Markup,
+    # the tuples of dictsort/items), consumed by something that is not folded itself; outside the tree grammar (kwargs)
+    ("{{ [{'k': 1, 'v': 'a'}, {'k': 2, 'v': 'b'}, {'k': 1, 'v': 'c'}]|groupby('k')|map(attribute='grouper')|list }}", {}),
+    ("{% for g in [{'k': 1}, {'k': 2}, {'k': 1}]|groupby('k') %}{{ g.grouper }}:{{ g.list|length }};{% endfor %}", {}),
+    ("{{ ([{'k': 1}, {'k': 2}]|groupby('k'))[i].grouper }}|{{ ([{'k': 1}, {'k': 2}]|groupby('k'))[i].list }}", {"i": 1}),
+    ("{{ ([{'k': 1}]|groupby('k')|first).grouper }}", {}),
+    ("{{ [{'k': 'x'}]|groupby('k')|map('first')|list }}|{{ [{'k': 'x'}]|groupby('k')|map('last')|list }}", {}),
+    ("{{ ({'b': 1, 'a': 2}|dictsort)[i][0] }}|{{ ({'b': 1, 'a': 2}|items|list)[i] }}", {"i": 0}),
+    ("{{ (('<b>'|safe), 1)[i] is escaped }}|{{ [('<b>'|safe)][i] ~ '<i>' }}", {"i": 0}),
+    ("{{ ('<b>'|safe|string)[i:] is escaped }}|{{ ('a'|safe ~ 'b') is escaped }}", {"i": 0}),
+    ("{{ (range(3)|list)[i] }}|{{ range(3)[i] }}|{{ (1, 2)|list|first + i }}", {"i": 1}),
+    ("{{ [1.5, 2]|sum + i }}|{{ (3 / 2)|round(i) }}|{{ [3, 1]|sort|first * i }}", {"i": 1}),
+]
+
+
+def raw_family_pass(res, jinja2):
+    """optimized and unoptimized environments (plain, autoescaping, sandboxed, async) must render these the same"""
+    import asyncio as _a
+    from jinja2.sandbox import SandboxedEnvironment
+    n = 0
+    for src, data in RAW_FAMILY:
+        for label, mk in (("plain", lambda o: jinja2.Environment(optimized=o)),
+                          ("autoescape", lambda o: jinja2.Environment(optimized=o, autoescape=True)),
+                          ("sandboxed", lambda o: SandboxedEnvironment(optimized=o)),
+                          ("async", lambda o: jinja2.Environment(optimized=o, enable_async=True))):
+            outs = []
+            for o in (True, False):
+                env = mk(o)
+                try:
+                    t = env.from_string(src)
+                    outs.append(("ok", _a.run(t.render_async(**data)) if env.is_async else t.render(**data)))
+                except Exception as e:  # noqa
+                    outs.append(("err", type(e).__name__))
+                n += 1
+            if outs[0] != outs[1]:
+                res.violate(f"C08:raw-family:{label}", f"{src!r} with {data!r} ({label}): optimized renders {outs[0]!r} but unoptimized "
+                            f"renders {outs[1]!r}", {"src": src, "data": data, "config": label})
+    return n
+
+
 def run(ctx, res):
     jinja2 = core.import_jinja()
     rng = ctx.rng("c08")
@@ -166,6 +207,7 @@ def run(ctx, res):
         if got != want:
             res.violate(f"C08:model:{tree[0]}", f"{{{{ {src} }}}} under [{v.label()}] renders {got!r}; the reference evaluator gives {want!r}",
                         {"src": src, "variant": v.label()})
+    evaluations += raw_family_pass(res, jinja2)
     res.coverage.update({
         "evaluations": evaluations, "distinct_nontrivial": len(distinct),
         "rule": (f"{ntrees} constant-rich random expression trees (depth 1-{maxd}); each rendered in one of 5 statement positions under "
